@@ -7,6 +7,7 @@ import (
 
 	"github.com/tonkeeper/tongo/boc"
 
+	"verifharness/prng"
 	"verifharness/sx"
 )
 
@@ -83,14 +84,29 @@ func genC01(c *Ctx) {
 	// first (so that the first input reported as hanging is a small one): DAGs
 	// whose number of root-to-leaf paths is exponential in the number of cells,
 	// shared cells that have children (index / cache bits): c01b.go
-	genC01Sharing(c, r.Fork(0xc01a))
+	// (histories, cheap for the extracted model, are interleaved with them and
+	// with the big single cases below: c01c.go)
+	hist := newC01HistGen(c, r.Fork(0xc01b))
+	genC01Sharing(c, r.Fork(0xc01a), func(cells int) { hist.next(1 + cells/30) })
+	// big single cases, run one at a time between the random DAGs
+	var big []func()
 	n := c.Scale(110, 3000)
+	step := 0
 	for i := 0; i < n; i++ {
+		if i == 0 {
+			big = c01BigCases(c, r.Fork(0xc01d))
+			step = n/(len(big)+1) + 1
+		}
+		if i%step == step-1 && len(big) > 0 {
+			big[0]()
+			big = big[1:]
+			hist.next(4)
+		}
 		size := 1 + r.Intn(16)
 		switch {
 		case i%9 == 0:
 			size = 40 + r.Intn(80)
-		case i%31 == 0:
+		case i%31 == 0 && (c.Thorough() || i <= 62):
 			size = 255 + r.Intn(6) // crosses the one-byte cell index
 		}
 		var dag []Node
@@ -104,6 +120,11 @@ func genC01(c *Ctx) {
 		opts := []int{r.Intn(8)}
 		if i%5 == 0 || c.Thorough() {
 			opts = []int{0, 1, 2, 3, 4, 5, 6, 7}
+			if !c.Thorough() && size >= 40 {
+				// quick tier: the extracted model hashes every cell twice
+				// (~10 ms per cell): two combinations for the larger DAGs
+				opts = []int{r.Intn(8), 5 + 2*r.Intn(2)}
+			}
 		}
 		for _, o := range opts {
 			in, out, fast := c01EmitSer(c, dag, o, fmt.Sprintf("%s|opt%d|n%d", fam, o, bucket(size)))
@@ -112,31 +133,66 @@ func genC01(c *Ctx) {
 			}
 		}
 	}
+	for _, f := range big {
+		f()
+	}
+	hist.rest()
+	// several goroutines, each on its own cells (or reading one shared DAG): c01d.go
+	genC01Conc(c, r.Fork(0xc01c))
+	if c01st.skipped > 0 {
+		c.Fail("c01.ser", sx.Nat(c01st.skipped), "ser-timeout-skipped",
+			fmt.Sprintf("%d further inputs with an unfolded tree of at least %d cells were not run after %d serialisations had hung", c01st.skipped, c01st.skipFrom, c01st.hangs))
+	}
+}
+
+// c01BigCases returns the single big cases as closures (each emits one case).
+func c01BigCases(c *Ctx, r *prng.R) []func() {
+	var out []func()
 	// exactly n distinct cells around the widths of the cell counter / reference
 	// size (every cell carries its own index, so nothing is de-duplicated)
 	for _, cnt := range []int{254, 255, 256, 257} {
 		for _, shape := range []string{"fan", "chainfan"} {
 			dag := exactDag(cnt, shape)
-			for _, o := range []int{0, 7, r.Intn(8)} {
-				c01EmitSer(c, dag, o, fmt.Sprintf("exact%d|%s|opt%d", cnt, shape, o))
+			opts := []int{0, 7, r.Intn(8)}
+			if !c.Thorough() {
+				// quick tier (about 2 s of model time per case): 256 as a fan
+				// with two combinations, 255 and 257 with one
+				switch {
+				case cnt == 256 && shape == "fan":
+					opts = []int{0, 7}
+				case (cnt == 255 && shape == "chainfan") || (cnt == 257 && shape == "fan"):
+					opts = opts[2:]
+				default:
+					opts = nil
+				}
+			}
+			for _, o := range opts {
+				cnt, shape, o := cnt, shape, o
+				out = append(out, func() { c01EmitSer(c, dag, o, fmt.Sprintf("exact%d|%s|opt%d", cnt, shape, o)) })
 			}
 		}
 	}
 	// the two-byte boundary: too large for the extracted model in reasonable
 	// time, so only the round-trip oracle on the implementation runs
 	for _, cnt := range []int{65535, 65536, 65537} {
-		dag := exactDag(cnt, "fan")
-		for _, o := range []int{0, 7} {
-			in := sx.L(sx.Nat(cnt), sx.Nat(o))
-			if what := c01BigRoundTrip(dag, o); what != "" {
-				c.Fail("c01.big", in, "roundtrip-big", fmt.Sprintf("DAG with exactly %d distinct cells, options %d: %s", cnt, o, what))
-			}
-			c.Note("c01.big", fmt.Sprintf("big%d|opt%d", cnt, o), in)
+		if !c.Thorough() && cnt != 65536 {
+			continue
 		}
+		cnt := cnt
+		out = append(out, func() {
+			dag := exactDag(cnt, "fan")
+			for _, o := range []int{0, 7} {
+				in := sx.L(sx.Nat(cnt), sx.Nat(o))
+				if what := c01BigRoundTrip(dag, o); what != "" {
+					c.Fail("c01.big", in, "roundtrip-big", fmt.Sprintf("DAG with exactly %d distinct cells, options %d: %s", cnt, o, what))
+				}
+				c.Note("c01.big", fmt.Sprintf("big%d|opt%d", cnt, o), in)
+			}
+		})
 	}
 	// deep chains around the depth limit
 	for _, depth := range []int{1022, 1023, 1024, 1025} {
-		if !c.Thorough() && depth != 1023 && depth != 1024 {
+		if !c.Thorough() && depth != 1024 {
 			continue
 		}
 		dag := make([]Node, depth+1)
@@ -146,16 +202,15 @@ func genC01(c *Ctx) {
 			}
 			dag[i].Bits = fmt.Sprintf("%b", i%5)
 		}
-		c01EmitSer(c, dag, 2, fmt.Sprintf("chain|depth%d", depth))
+		depth := depth
+		out = append(out, func() {
+			in, res, _ := c01EmitSer(c, dag, 2, fmt.Sprintf("chain|depth%d", depth))
+			if depth <= 1024 && c01IsAtom(res, "err", "panic") {
+				c.Fail("c01.ser", in, "depth-limit", fmt.Sprintf("a chain of depth %d (the limit is 1024) is not serialised: %s", depth, res.String()))
+			}
+		})
 	}
-	// histories: cells that are written to after they were serialised: c01c.go
-	genC01Hist(c, r.Fork(0xc01b))
-	// several goroutines, each on its own cells (or reading one shared DAG): c01d.go
-	genC01Conc(c, r.Fork(0xc01c))
-	if c01st.skipped > 0 {
-		c.Fail("c01.ser", sx.Nat(c01st.skipped), "ser-timeout-skipped",
-			fmt.Sprintf("%d further inputs with an unfolded tree of at least %d cells were not run after %d serialisations had hung", c01st.skipped, c01st.skipFrom, c01st.hangs))
-	}
+	return out
 }
 
 // c01.ser cases run in the guarded child (20 s limit): a serialisation that
